@@ -119,6 +119,27 @@ def hierarchy_layers(types: Sequence[str], parents: Sequence[Sequence[int]], loc
     return out
 
 
+def split_files(case: Dict[str, Any], children_first: bool, prefix: str = "h0_") -> Dict[str, str]:
+    """ONE hierarchy with every layer in a DIAG-LAYER-CONTAINER (file) of its own; PARENT-REFs carry DOCREF / DOCTYPE=CONTAINER.
+    The order of the returned files is the order in which they are added to the database: parents' containers first
+    (children_first=False) or last."""
+    types, parents, local = case["types"], case["parents"], case["local"]
+    layers = hierarchy_layers(types, parents, local, prefix, bool(case.get("reverse")))
+    cname = {l["name"]: "DLC_" + l["name"] for l in layers}
+    ltypes = {l["name"]: l["type"] for l in layers}
+    for l in layers:
+        for pr in l.get("parents", []):
+            pr["docref"] = cname[pr["layer"]]
+            pr["doctype"] = "CONTAINER"
+    order = list(reversed(layers)) if children_first else list(layers)
+    out: Dict[str, str] = {}
+    for l in order:
+        out[cname[l["name"]] + ".odx-d"] = container({"name": cname[l["name"]], "layers": [l], "foreign_layer_types": ltypes})
+    out[ref.SUBSET + ".odx-cs"] = subset_xml(case.get("variant", "flat"))
+    out[ref.CSPEC + ".odx-c"] = cspec_xml()
+    return out
+
+
 def batch_files(elements: Sequence[Dict[str, Any]]) -> Dict[str, str]:
     """elements: [{types, parents, local, reverse?, variant?}] -> {file name: xml}; element k gets the name prefix h<k>_.
     All elements of a batch use the same subset variant (one COMPARAM-SUBSET per database)."""
